@@ -8,7 +8,10 @@ further consistent observations added, for all four algorithms.
 AcordModel.tla: networks built by TLC from the constructions of the documented strategy for approximate
 coordinates (polar by direction or angle, intersection, resection by directions or angles, trilateration,
 two distances with a bearing, inserted traverse, in every order over 4-5 points, plus further observations); the model's closure says which points must be positioned; they are
-written without approximate coordinates, under names and document orders that hide the construction order."""
+written without approximate coordinates, under names and document orders that hide the construction order.
+AcordHeights.tla: heights propagate along levelled differences, zenith angle + slope distance pairs and vectors
+in either direction; the closure is reachability whatever the kinds along the path; every spanning tree over
+4-5 points in every mixture of kinds and directions, heights omitted."""
 import sessions, acordnets
 LEVEL = "exploration"
 NOISE = "{0}"
@@ -46,6 +49,14 @@ def run(ctx):
         rb, cb = acordnets.generate(ctx, "c06e", {"NP": 4, "MaxExtra": 2, "Kinds": KALL, "Keep": 211, "Seed": ctx.seed})
     sta = acordnets.run(ctx, ca, algs=(None,) if q else (None, "gso", "svd", "cholesky"))
     stb = acordnets.run(ctx, cb, algs=(None, "gso") if q else (None, "gso", "svd", "cholesky"))
+    # heights: every spanning tree of levelled differences, zenith angle + slope distance pairs and vectors, in both directions
+    KH = '{"dh", "zs", "vec"}'
+    if q:
+        rh, ch = acordnets.generate(ctx, "c06h", {"NP": 4, "MaxExtra": 1, "Kinds": KH, "Keep": 307, "Seed": ctx.seed}, module="AcordHeights")
+    else:
+        rh, ch = acordnets.generate(ctx, "c06h", {"NP": 5, "MaxExtra": 1, "Kinds": KH, "Keep": 997, "Seed": ctx.seed}, module="AcordHeights")
+    sth = acordnets.run(ctx, ch, algs=(None,) if q else (None, "gso"), heights=True)
+    ctx.note("AcordHeights: %d link histories (%d states), %d runs, %d heights derived" % (len(ch), rh.distinct, sth["runs"], sth["points_checked"]))
     ctx.note("AcordModel: %d construction histories over 5 points (%d states), %d over 4 points with further observations (%d states); %d runs, %d points positioned"
              % (len(ca), ra.distinct, len(cb), rb.distinct, sta["runs"] + stb["runs"], sta["points_checked"] + stb["points_checked"]))
     if ed:
@@ -54,10 +65,12 @@ def run(ctx):
     ctx.assume("observation values are computed from the true coordinates by textbook formulas in tools/session.py (trusted, 1e-10)")
     ctx.assume("tolerance 2e-6 m / 2e-7 gon on printed results")
     n = st0["truth_checks"] + st1["truth_checks"]
-    return {"evaluations": st0["runs"] + st1["runs"] + sta["runs"] + stb["runs"], "distinct_nontrivial": len(base) + len(ed) + len(pn) + len(ca) + len(cb),
+    return {"evaluations": st0["runs"] + st1["runs"] + sta["runs"] + stb["runs"] + sth["runs"], "distinct_nontrivial": len(base) + len(ed) + len(pn) + len(ca) + len(cb) + len(ch),
             "acord_model": {"histories_5pts": len(ca), "histories_4pts_extra": len(cb), "runs": sta["runs"] + stb["runs"], "adjusted": sta["adjusted"] + stb["adjusted"],
                             "points_positioned": sta["points_checked"] + stb["points_checked"], "by_construction": sta["by_construction"],
                             "tlc_invariants": "Determined (constructed points are in the closure), Monotone (added observations never shrink the closure)"},
+            "acord_heights": {"histories": len(ch), "runs": sth["runs"], "adjusted": sth["adjusted"], "heights_derived": sth["points_checked"],
+                              "by_construction": sth["by_construction"]},
             "rule": "final states of SurveySession.tla with noise = 0 (thinned by KeepNet/KeepEdit/Seed); every network is distinct in template, "
                     "optional observations, axes, angle sense or circle orientation; non-trivial = all (each has >= 2 unknown points)",
-            "tlc_states": r0.distinct + r1.distinct + r2.distinct + ra.distinct + rb.distinct, "law_checks": st1["law_checks"] + st2["law_checks"], "truth_checks": n, "adjusted": st0["adjusted"] + st1["adjusted"], "exhaustive": False}
+            "tlc_states": r0.distinct + r1.distinct + r2.distinct + ra.distinct + rb.distinct + rh.distinct, "law_checks": st1["law_checks"] + st2["law_checks"], "truth_checks": n, "adjusted": st0["adjusted"] + st1["adjusted"], "exhaustive": False}
